@@ -23,6 +23,8 @@ KINDS = {
     "option": (["fp.Option[int]", "fp.Option[string]", "fp.Option[[]int]", "fp.Option[Inner]", "fp.Option[*int]"], True),
     "tuple": (["fp.Tuple2[int, string]"], False),
     "seq": (["fp.Seq[int]"], True),
+    # types of user packages whose names collide with packages the generated code imports itself
+    "userpkg": (["option.Kind", "as.Mark"], True),
 }
 VIS = ["private", "public", "underscore", "embedded"]
 TAGS = ["", 'json:"%s"', 'json:"%s,omitempty"', 'yaml:"%s"']
@@ -33,6 +35,9 @@ import (
 	"fmt"
 	"time"
 
+	"scratch/as"
+	"scratch/option"
+
 	"github.com/csgura/fp"
 )
 
@@ -41,6 +46,8 @@ import (
 var _ = fmt.Sprint
 var _ time.Duration
 var _ fp.Unit
+var _ option.Kind
+var _ as.Mark
 
 type MyInt int
 type MyStr string
@@ -91,7 +98,7 @@ def gen_shapes(rng, n, json_only=False, max_fields=9, tricky=True):
                 if cand:
                     name = rng.choice(cand)
             used.add(name)
-            tag = rng.choice(TAGS[:3] if json_only else TAGS)
+            tag = rng.choice(TAGS)
             if vis != "private":
                 tag = ""
             fields.append(dict(vis=vis, name=name, typ=typ, kind=kind, tag=(tag % ("j" + name.lower().strip("_"))) if tag else ""))
@@ -99,7 +106,15 @@ def gen_shapes(rng, n, json_only=False, max_fields=9, tricky=True):
             fields.append(dict(vis="private", name="a99", typ="int", kind="basic", tag=""))
         safe = all(f["kind"] == "embedded" and False or KINDS.get(f["kind"], (None, False))[1] for f in fields if f["vis"] != "underscore") \
             and not any(f["typ"] == "map[int]string" for f in fields)
-        shapes.append(dict(name="S%d" % s, fields=fields, json=json_only or (safe and rng.random() < 0.5), labelled=rng.random() < 0.3, tparams=[]))
+        anns = ["Value"]
+        if not json_only:
+            x = rng.random()
+            if x < 0.35:
+                anns += rng.sample(["Getter", "With", "Builder", "String", "AllArgsConstructor", "RequiredArgsConstructor"], rng.randint(1, 3))
+            elif x < 0.5:
+                anns = rng.sample(["Getter", "With", "Builder", "String"], rng.randint(1, 4))
+        isval = "Value" in anns
+        shapes.append(dict(name="S%d" % s, fields=fields, json=isval and (json_only or (safe and rng.random() < 0.5)), labelled=isval and rng.random() < 0.3, tparams=[], anns=anns))
     return shapes
 
 
@@ -125,7 +140,15 @@ def special_shapes():
                                    dict(vis="private", name="a7", typ="any", kind="interface", tag=""), dict(vis="embedded", name="", typ="Empty", kind="embedded", tag=""),
                                    dict(vis="private", name="a9", typ="error", kind="interface", tag="")],
              json=False, labelled=False, tparams=[]),
-    ]
+        dict(name="Collide", fields=[dict(vis="private", name="o", typ="fp.Option[int]", kind="option", tag=""), dict(vis="private", name="k", typ="option.Kind", kind="userpkg", tag=""),
+                                     dict(vis="private", name="m", typ="as.Mark", kind="userpkg", tag=""), dict(vis="private", name="ok", typ="fp.Option[option.Kind]", kind="option", tag="")],
+             json=True, labelled=True, tparams=[]),
+    ] + [dict(name="Ann%d" % i, anns=anns, json=False, labelled=False, tparams=[],
+              fields=[dict(vis="private", name="a", typ="int", kind="basic", tag=""), dict(vis="private", name="o", typ="fp.Option[string]", kind="option", tag=""),
+                      dict(vis="public", name="P", typ="[]int", kind="slice", tag="")])
+         for i, anns in enumerate([["Value", "Getter"], ["Value", "With"], ["Value", "Builder"], ["Value", "String"], ["Value", "Getter", "With", "Builder", "String"],
+                                   ["Getter"], ["With"], ["Builder"], ["String"], ["Getter", "With"], ["With", "Builder"], ["Getter", "With", "Builder", "String"],
+                                   ["Value", "AllArgsConstructor"], ["Value", "RequiredArgsConstructor"], ["AllArgsConstructor"]])]
 
 
 def nilable(typ):
@@ -136,7 +159,8 @@ def go_source(pkg, shapes):
     out = [PRELUDE % dict(pkg=pkg)]
     reg = []
     for sh in shapes:
-        ann = ["// @fp.Value"]
+        anns = sh.get("anns") or ["Value"]
+        ann = ["// @fp.%s" % a for a in anns]
         if sh.get("json"):
             ann.append("// @fp.Json")
         if sh.get("labelled"):
@@ -171,7 +195,8 @@ def go_source(pkg, shapes):
                 conv.append("%s: x.%s" % (pub, f["name"]))
             out.append("}\n")
             twin = "func(v any) any { x := v.(%s); return vTwin%s{%s} }" % (sh["name"], sh["name"], ", ".join(conv))
-        reg.append("\t{v: %s{}, json: %s, lab: %s, twin: %s}," % (inst, "true" if sh.get("json") else "false", "true" if sh.get("labelled") else "false", twin))
+        reg.append("\t{v: %s{}, json: %s, lab: %s, anns: []string{%s}, twin: %s}," % (inst, "true" if sh.get("json") else "false", "true" if sh.get("labelled") else "false",
+                                                                                  ", ".join('"%s"' % a for a in anns), twin))
     registry = "package %s\n\nvar vRegistry = []vEntry{\n%s\n}\n" % (pkg, "\n".join(reg))
     return "\n".join(out), registry
 
@@ -186,6 +211,10 @@ class Scratch:
         with open(os.path.join(self.root, "go.mod"), "w") as fh:
             fh.write("module scratch\n\ngo 1.23\n\nrequire github.com/csgura/fp v0.0.0\n\nreplace github.com/csgura/fp => %s\n" % vf.REPO)
         shutil.copy(os.path.join(vf.REPO, "go.sum"), os.path.join(self.root, "go.sum"))
+        for name, body in (("option", "type Kind int\n"), ("as", "type Mark int\n")):
+            os.makedirs(os.path.join(self.root, name))
+            with open(os.path.join(self.root, name, name + ".go"), "w") as fh:
+                fh.write("// Package %s is a user package that happens to share its name with one the generated code imports.\npackage %s\n\n%s" % (name, name, body))
         self.gombok = os.path.join(self.root, "gombok-bin")
         p = subprocess.run(["go", "build", "-o", self.gombok, "./cmd/gombok"], cwd=vf.REPO, env=self.env, capture_output=True, text=True)
         if p.returncode != 0:
